@@ -56,9 +56,11 @@ def Buf.bufCap (b : Buf) : Nat := b.endOrCap - b.start
 def Buf.wf (b : Buf) : Prop :=
   b.root.len ≤ b.root.cap ∧ b.start ≤ b.root.len ∧ (∀ e, b.stop = some e → b.start ≤ e)
 
-instance (b : Buf) : Decidable b.wf := by
-  unfold Buf.wf
-  cases b.stop <;> simp <;> infer_instance
+instance (b : Buf) : Decidable b.wf :=
+  match h : b.stop with
+  | none => decidable_of_iff (b.root.len ≤ b.root.cap ∧ b.start ≤ b.root.len) (by simp [Buf.wf, h])
+  | some e =>
+    decidable_of_iff (b.root.len ≤ b.root.cap ∧ b.start ≤ b.root.len ∧ b.start ≤ e) (by simp [Buf.wf, h])
 
 /-- (offset into `mem`, length) handed to the OS -/
 def Buf.offered (k : Kind) (b : Buf) : Nat × Nat :=
@@ -142,5 +144,14 @@ def Buf.offeredBytes (k : Kind) (b : Buf) : Bytes :=
   (b.root.mem.drop (b.offered k).1).take (b.offered k).2
 
 def offeredBytesVec (k : Kind) (bs : List Buf) : Bytes := (bs.map (Buf.offeredBytes k)).flatten
+
+/-- the range kind the op `op` hands to the OS on driver `d`, read off the regenerated table
+(`none` when the table has no such row or the row is not unambiguous) -/
+def kindOf (op : Gen.OpTable.Op) (d : Gen.OpTable.Driver) : Option Kind :=
+  match Gen.OpTable.rows.find? fun r => r.op = op ∧ r.driver = d with
+  | some r => match r.mainKinds with
+    | [k] => some k
+    | _ => none
+  | none => none
 
 end Compio.BufShape
